@@ -67,6 +67,13 @@ ForeignLockOwner(sp, req) ==
   /\ req.op = "LOCK" /\ req.newlo /\ req.sk = "reg" /\ req.st \in DOMAIN e.oofs
   /\ req.cid # e.oofs[req.st].c
 
+\* The previous observation shows lock state of the request's lock-owner on the
+\* request's file that the model does not have.
+StrayLockState(sp, req) ==
+  \E x \in Range(obs.hook.lofs) :
+    /\ x.cid = req.cid /\ x.lk = req.lk /\ x.f = req.fh
+    /\ ~\E y \in DOMAIN sp.lofs : sp.lofs[y].c = x.cid /\ sp.lofs[y].lk = x.lk /\ sp.oofs[sp.lofs[y].ot].f = x.f
+
 Classify(sp, req, m, ctx, r) ==
   IF r = m THEN "ok"
   ELSE IF r.pre # m.pre THEN
@@ -85,6 +92,11 @@ Classify(sp, req, m, ctx, r) ==
          IF r.st = "OK" \/ r \in OkCached(sp) THEN "C19:misordered-seqid-accepted"
          ELSE "NC:status-of-misordered-request"
   ELSE IF ctx = "new" /\ r \in OkCached(sp) THEN "C19:new-request-answered-from-replay-cache"
+  \* the first LOCK of a lock-owner on a file, in order, nothing conflicting (the
+  \* model grants it), refused because the server has lock state for (lock-owner,
+  \* file) that no granted LOCK created
+  ELSE IF ctx = "new" /\ r.st = "BAD_SEQID" /\ req.op = "LOCK" /\ req.newlo /\ m.st = "OK" /\ StrayLockState(sp, req)
+       THEN "C20:lock-refused-although-nothing-conflicts"
   ELSE IF ctx = "new" /\ r.st = "BAD_SEQID" THEN "C19:in-order-seqid-rejected"
   ELSE IF m.st \in SidErrors /\ r.st = "OK" THEN "C18:state-id-honoured-wrongly"
   ELSE IF req.op \in {"LOCK", "LOCKT"} /\ m.st = "DENIED" /\ r.st = "OK" THEN "C20:conflicting-lock-granted"
@@ -183,6 +195,12 @@ HookC20(st, h) ==
     THEN "C20:lock-count-differs-from-table-entries"
   ELSE IF \E e \in L : ~\E x \in lofs : x.cid = e.cid /\ x.lk = e.lk /\ x.f = e.f
     THEN "C20:table-entry-without-lock-owner-state"
+  \* Lock state exists for (lock-owner, file) only from a granted LOCK on: a
+  \* failed first LOCK issued no lock state id, so state left behind for it can
+  \* be named by nobody and stands in the way of the owner's next attempt.
+  ELSE IF \E x \in lofs : x.lc = 0 /\ ~\E y \in DOMAIN st.lofs :
+            st.lofs[y].c = x.cid /\ st.lofs[y].lk = x.lk /\ st.oofs[st.lofs[y].ot].f = x.f
+    THEN "C20:lock-state-left-behind-by-a-failed-initial-lock"
   \* (the last byte is not compared: a table with exclusive end offsets
   \* cannot tell "up to the last byte" from "through the last byte"; what
   \* happens to that byte is judged by the replies)
